@@ -75,7 +75,7 @@ fn want(site: &Site, code: u8) -> Want {
     }
 }
 
-fn run_case(site: &Site, code: u8, inter: usize, acc: &mut Acc) -> (Option<OpResult>, Vec<String>) {
+fn run_case(site: &Site, code: u8, inter: usize, receipt_field: Option<u32>, acc: &mut Acc) -> (Option<OpResult>, Vec<String>) {
     let mut ctx = Ctx::new(vec![], vec![], 0);
     let sh: Sh = Rc::new(RefCell::new(std::mem::replace(&mut ctx, Ctx::new(vec![], vec![], 0))));
     let armed = Rc::new(RefCell::new(false));
@@ -93,7 +93,7 @@ fn run_case(site: &Site, code: u8, inter: usize, acc: &mut Acc) -> (Option<OpRes
             s.push(r.intermediate(0x17));
         }
         s.push(match request {
-            "PartialReversal" | "PreAuthReversal" | "EndOfDay" => r.reversal_abort(code, None),
+            "PartialReversal" | "PreAuthReversal" | "EndOfDay" => r.reversal_abort(code, receipt_field),
             _ => r.abort(code),
         });
         Some(s)
@@ -154,12 +154,18 @@ pub fn run(run: &RunInfo) -> Summary {
     let mut acc = par_for(work.len(), |ix, acc| {
         let (si, code) = work[ix];
         let site = &all[si];
-        for inter in 0..=site.max_inter {
-            let key = format!("c20/abort-at={}/code={code:02X}/intermediates={inter}", site.name);
+        // shapes of the abort packet: plain, and (where the packet type has the field) carrying a
+        // receipt number field with the 'none' marker FFFF or an ordinary number
+        let shapes: Vec<Option<u32>> = if ["PartialReversal", "PreAuthReversal", "EndOfDay"].contains(&site.request) { vec![None, Some(0xffff), Some(17)] } else { vec![None] };
+        for (inter, shape) in (0..=site.max_inter).flat_map(|i| shapes.iter().map(move |s| (i, *s))) {
+            if shape.is_some() && inter > 0 {
+                continue;
+            }
+            let key = format!("c20/abort-at={}/code={code:02X}/intermediates={inter}/receipt-field={shape:?}", site.name);
             if skip_for_replay(run, &key) {
                 continue;
             }
-            let (res, trace) = run_case(site, code, inter, acc);
+            let (res, trace) = run_case(site, code, inter, shape, acc);
             acc.count("executions", 1);
             let Some(res) = res else {
                 acc.count("unreached", 1);
@@ -216,7 +222,7 @@ pub fn run(run: &RunInfo) -> Summary {
         transitions: acc.get("transitions"),
         traces_validated: execs,
         distinct_nontrivial: acc.set_len("outcomes"),
-        rule: format!("real Feig client against the simulated terminal: all 256 result codes x {} abort sites (read card; reservation; the partial reversal of commit; the reversal of cancel; pending query, dangling reversal and end-of-day of the clean-up of commit, cancel and configure; system info, set-terminal-id and initialisation of configure) x abort after 0, 1 and 2 intermediate packets where the reply set allows them. The call must fail with Aborted(code), or an error text naming 0x<code> or (read card) the chapter-10 message of the code; the only renamings/successes are 6C at read card, FC at reservation, A0 at end-of-day and the query's own reply code B8", all.len()),
+        rule: format!("real Feig client against the simulated terminal: all 256 result codes x {} abort sites (read card; reservation; the partial reversal of commit; the reversal of cancel; pending query, dangling reversal and end-of-day of the clean-up of commit, cancel and configure; system info, set-terminal-id and initialisation of configure) x abort after 0, 1 and 2 intermediate packets where the reply set allows them, the abort packet plain and (for the reversal-type aborts) carrying a receipt-number field with FFFF or an ordinary number. The call must fail with Aborted(code), or an error text naming 0x<code> or (read card) the chapter-10 message of the code; the only renamings/successes are 6C at read card, FC at reservation, A0 at end-of-day and the query's own reply code B8", all.len()),
         exhaustive: true,
         required_witnesses: vec!["aborts were reported with their code".into(), "the documented translations were exercised".into()],
         assumptions: vec![
